@@ -49,7 +49,7 @@ termination_by z - a
 decreasing_by all_goals omega
 
 /-- one pass of the source's search loop, on in-range naturals.  `mk a z ovr` packs the three variables the loop carries
-    into the loop state (the translator emits them sorted by name — `(a, ovr, z)`; nothing here depends on the order). -/
+    into the loop state (the translator emits them sorted by type, then by name — `(ovr, a, z)`; nothing here depends on the order). -/
 def bsStep {σ : Type} (mk : Int → Int → Option Int → σ) (idx : List Int) (bs be : Int) (a z : Nat) (o : Option Int) :
     Ctl σ (Option OverlapResult) :=
   let m := a + (z - a) / 2
